@@ -108,13 +108,28 @@ var services = map[string]*svcDef{}
 
 func register(d *svcDef) { services[d.name] = d }
 
+// serviceNames: the services in a fixed order.  rapid's SampledFrom prefers
+// early entries, so the services with the most shared state come first.
 func serviceNames() []string {
+	order := []string{"relay", "wallet", "scm", "cache", "dirk", "attester", "vm", "controller"}
 	names := make([]string, 0, len(services))
-	for n := range services {
-		names = append(names, n)
+	for _, n := range order {
+		if services[n] != nil {
+			names = append(names, n)
+		}
 	}
-	sort.Strings(names)
-	return names
+	var rest []string
+	for n := range services {
+		known := false
+		for _, o := range order {
+			known = known || o == n
+		}
+		if !known {
+			rest = append(rest, n)
+		}
+	}
+	sort.Strings(rest)
+	return append(names, rest...)
 }
 
 func (d *svcDef) role(kind string) *roleDef {
